@@ -315,7 +315,13 @@ class AtomicTransaction(StoreTransaction):
             ).fetchone()
             owner_gone = owner_row is None
             owner_terminal = owner_row is not None and WorkflowStatus[owner_row[0]].is_complete
-            if owner_gone or owner_terminal:
+            # A claim row is only ever written in the transaction that moves its
+            # owner NOT_STARTED -> RUNNING, so an owner that is NOT_STARTED again was
+            # re-armed by a jump (reset_stage_for_retry) and no longer holds the
+            # mutex. Without this a retry loop whose stages share a mutex deadlocks:
+            # the re-armed downstream owner keeps the claim its upstream needs.
+            owner_rearmed = owner_row is not None and owner_row[0] == WorkflowStatus.NOT_STARTED.name
+            if owner_gone or owner_terminal or owner_rearmed:
                 cursor = self._conn.execute(
                     """
                     UPDATE stage_claims
